@@ -478,7 +478,7 @@ def src_report(rep, c, r):
                              {"text": c["text"], "toks": c["toks"], "expected": sorted(exp), "got": sorted(got), "scan": r.get("scan")})
     relfirst = set()
     for rr in c["reals"]:
-        if c["loc"] == "pkg" and rr["form"] in ("cim_c", "from_c") and rr["ctx"] == "bol":
+        if c["loc"] == "pkg" and rr["form"] in ("cim_c", "from_c"):
             relfirst.add("p/c.pxd")
     for f in sorted(got - exp):
         rep.disagree(dict(base, extra=f, in_relfirst=f in relfirst, decoys=c["nd"] > 0), "scanner-extra",
